@@ -1097,6 +1097,9 @@ func (s *vSim) randomRun(o simOpts) {
 	}
 	if o.scenarios && s.tid%16 == 12 {
 		scen = 5
+		if s.tid%32 == 28 {
+			scen = 6
+		}
 		nInit = 3
 		voters = []uint64{1, 2, 3}
 	}
@@ -1469,7 +1472,64 @@ func (s *vSim) scenario5(nextID uint64) uint64 {
 	return nextID
 }
 
+// scenario6 (three voters): the leader accepts a membership change that never leaves it, is
+// deposed, has the entry overwritten and is elected again. It must then accept membership
+// changes again (the "one change in flight" flag belongs to the lost entry).
+func (s *vSim) scenario6(nextID uint64) uint64 {
+	s.settle(40, nil, nil, nil, func() bool { return s.leaderNode() != nil && s.leaderNode().applied >= 4 })
+	l := s.leaderNode()
+	if l == nil {
+		return nextID
+	}
+	var b *vNode
+	for _, n := range s.upNodes() {
+		if n.id != l.id {
+			b = n
+			break
+		}
+	}
+	only := func(ids ...uint64) map[uint64]bool {
+		m := map[uint64]bool{}
+		for _, n := range s.upNodes() {
+			m[n.id] = true
+		}
+		for _, id := range ids {
+			delete(m, id)
+		}
+		return m
+	}
+	all := func(m pb.Message) bool { return m.From == l.id || m.To == l.id }
+	s.proposeCC(l, opAddNonVoting, nextID)
+	s.settle(1, all, nil, only(), nil)
+	// the others elect b, which commits in its term
+	s.settle(40, all, nil, only(b.id), func() bool { return b.peer.raft.state == leader })
+	if b.peer.raft.state != leader {
+		return nextID
+	}
+	s.nextVal++
+	s.propose(b, s.nextVal)
+	s.settle(4, all, nil, only(b.id), nil)
+	// l comes back and follows b: the membership change entry is overwritten
+	s.settle(4, nil, nil, only(b.id), func() bool { return l.peer.raft.state == follower && l.peer.raft.log.lastIndex() == b.peer.raft.log.lastIndex() })
+	// b is cut off, l is elected again
+	cutb := func(m pb.Message) bool { return m.From == b.id || m.To == b.id }
+	s.settle(40, cutb, nil, only(l.id), func() bool { return l.peer.raft.state == leader })
+	s.settle(3, nil, nil, only(l.id), nil)
+	if l.peer.raft.state == leader {
+		// a membership change submitted now must go through
+		s.proposeCC(l, opAddNonVoting, nextID)
+		s.settle(6, nil, nil, only(l.id), nil)
+		if _, ok := s.firstKind[nextID]; ok && s.nodes[nextID] == nil {
+			s.join(nextID, "N")
+		}
+	}
+	return nextID + 1
+}
+
 func (s *vSim) scenario(k int, nextID uint64) uint64 {
+	if k == 6 {
+		return s.scenario6(nextID)
+	}
 	if k == 4 {
 		s.scenario4()
 		return nextID
@@ -1687,6 +1747,19 @@ func (s *vSim) healAndCheck(rounds int) {
 			s.propose(n, probeVal)
 			probeCtx++
 			s.readIndex(n, probeCtx)
+		}
+	}
+	// a probe membership change at the leader: removing an id that is not a member is accepted by
+	// the rules, changes nothing but the removed set, and must be applied like any other change
+	if l := s.leaderNode(); l != nil {
+		for x := uint64(1); x <= 5; x++ {
+			_, v := l.mem.v[x]
+			_, nv := l.mem.nv[x]
+			_, w := l.mem.w[x]
+			if !v && !nv && !w && !l.mem.rm[x] {
+				s.proposeCC(l, opRemove, x)
+				break
+			}
 		}
 	}
 	for i := 0; i < rounds; i++ {
